@@ -905,6 +905,9 @@ func propC11() *lib.Prop {
 						c.Ops = append(c.Ops, "ldrain")
 					default:
 						k := r.Range(1, n+1)
+						if redeploys {
+							k = 1 // one placeholder in flight at a time (see above)
+						}
 						op := "lread"
 						for ; k > 0; k-- {
 							switch r.Intn(4) {
@@ -944,7 +947,7 @@ func propC11() *lib.Prop {
 				}
 				scale := lib.Pick(r, []int64{1, 7, 1_000_000, 1_700_000_000_000_000_000 / 50})
 				n := r.Range(5, 60)
-				cur := int64(r.Intn(20))
+				cur := int64(r.Intn(20)) - 5
 				for j := 0; j < n; j++ {
 					if r.Chance(1, 3) {
 						c.Ops = append(c.Ops, tick)
@@ -960,10 +963,7 @@ func propC11() *lib.Prop {
 						default:
 							cur += int64(r.Intn(6))
 						}
-						if cur < 0 {
-							cur = 0
-						}
-						op += fmt.Sprintf(" %d", cur*scale)
+						op += fmt.Sprintf(" %d", cur*scale) // late events may go below the epoch
 					}
 					c.Ops = append(c.Ops, op)
 				}
